@@ -145,8 +145,9 @@ def norm(t, depth=0):
                             mp2[T.deref(T.param(i + 1))] = x.args[0]
                     mp2.update({T.param(i + 1): x for i, x in enumerate(args)})
                     return norm(rebuild(body, mp2), d)
-            if vn == "Ok" and f == "elf_stream::CachingReader::read_bytes":
-                return ("file", norm(args[1], d), norm(args[2], d))
+            if vn == "Ok" and f == "elf_stream::CachingReader::read_bytes" and read_bytes_bounds(args) is not None:
+                a_, b_ = read_bytes_bounds(args)
+                return ("file", norm(a_, d), norm(b_, d))
             if vn == "Ok" and (f == "parse::ParseAt::parse_at" or f.endswith(" as parse::ParseAt>::parse_at")):
                 P = g[0] if f == "parse::ParseAt::parse_at" else f[1:].split(" as ")[0]
                 return ("parse", P, norm(args[0], d), norm(args[1], d), norm(args[2], d), norm(args[3], d))
@@ -339,6 +340,20 @@ def ok_outcomes(an):
     return out
 
 
+def read_bytes_bounds(args):
+    """(start, end) of a CachingReader::read_bytes call, written read_bytes(start, end) or read_bytes(start..end)"""
+    args = list(args)
+    if len(args) == 3:
+        return args[1], args[2]
+    if len(args) == 2:
+        r = args[1]
+        if r.op == "agg" and r.args[1] == "ops::Range" and len(r.args[4]) == 2:
+            return r.args[4][0], r.args[4][1]
+        fs = {"start": 0, "end": 1}
+        return Term("proj", r, ("f", 0, "start")), Term("proj", r, ("f", 1, "end"))
+    return None
+
+
 def failure_causes(an):
     """Canonical description of every error outcome of a function returning Result: why does it fail?
     ('conv', x)            a try_into conversion of x failed
@@ -426,8 +441,9 @@ def classify_failure(an, t, st):
             if f == "parse::ParseAt::parse_at" or f.endswith(" as parse::ParseAt>::parse_at"):
                 P_ = g[0] if f == "parse::ParseAt::parse_at" else f[1:].split(" as ")[0]
                 return ("parse", P_, norm(args[2]), norm(args[3]))
-            if f == "elf_stream::CachingReader::read_bytes":
-                return ("read", norm(args[1]), norm(args[2]))
+            if f == "elf_stream::CachingReader::read_bytes" and read_bytes_bounds(args) is not None:
+                a_, b_ = read_bytes_bounds(args)
+                return ("read", norm(a_), norm(b_))
             if f == "elf_stream::CachingReader::load_bytes":
                 r = norm(args[1])
                 if r[0] == "agg" and len(r[3]) == 2:
